@@ -1,4 +1,5 @@
 import FrappyModel.Small.Discovery
+import FrappyModel.Small.DiscoveryServer
 import FrappyModel.Generated.C19
 /-
 The constants of `frappy/protocol/discovery.py` as re-extracted from the tree under test
@@ -20,5 +21,10 @@ def generatedTables : Tables :=
     budgetPort := Generated.C19.budgetPort, fwPrefix := Generated.C19.firmwarePrefix,
     seg0 := Generated.C19.seg0, seg1 := Generated.C19.seg1, seg2 := Generated.C19.seg2,
     seg3 := Generated.C19.seg3, seg4 := Generated.C19.seg4, catches := generatedCatches }
+
+def generatedServerTables : ServerTables :=
+  { resetPerRound := Generated.C19.interfacesResetPerRound,
+    announcesBoundPort := Generated.C19.announcesBoundPort,
+    restartClosesDiscovery := Generated.C19.restartClosesDiscovery }
 
 end Frappy.Discovery
